@@ -183,6 +183,56 @@ func c10ClientEncoding(run *ev.Run) {
 			run.Sample(map[string]any{"part": "client", "protocol": protocol, "deadline_in": d.String(), "header": vals[0]})
 		}
 	})
+	// sliding deadlines: a context whose deadline is always a fixed (tiny)
+	// distance ahead, so that the remaining time at encoding is known exactly
+	// without racing the clock
+	for _, rem := range []time.Duration{1, 500, 300 * time.Microsecond, 999 * time.Microsecond, time.Millisecond, time.Millisecond + 1, 1500 * time.Microsecond, 2*time.Millisecond - 1, 59999 * time.Microsecond} {
+		for _, protocol := range svc.Protocols {
+			for _, kind := range []svc.Kind{svc.Unary, svc.ServerStream} {
+				key := fmt.Sprintf("c10/client-sliding/%s/%s/rem=%d", protocol, kind, int64(rem))
+				if !run.Want(key) {
+					continue
+				}
+				var hdr http.Header
+				cn := &wire.Canned{Background: true, Respond: func(req *http.Request, _ []byte) (*http.Response, error) {
+					hdr = req.Header.Clone()
+					return nil, fmt.Errorf("verif: stop here")
+				}}
+				cs := svc.NewClientSet(cn, "http://verif.local", svc.ProtoOpts(protocol, "proto")...)
+				_ = cs.Do(slidingCtx{Context: context.Background(), ahead: rem}, kind, "x", nil, []*gen.Msg{{Id: 1}})
+				run.Eval(fmt.Sprintf("client|%s|%s|sliding-sub-ms", protocol, kind))
+				run.Count("client.headers.checked", 1)
+				if hdr == nil {
+					run.Inconclusive("client request never reached the transport")
+					continue
+				}
+				v := hdr.Get(timeoutHeader(protocol))
+				detail := map[string]any{"protocol": protocol, "kind": kind.String(), "remaining_ns": int64(rem), "header": v}
+				if v == "" {
+					continue // nothing sent: cannot be longer than the time remaining
+				}
+				var T *big.Int
+				if protocol == "connect" {
+					ms, ok := refcodec.ParseConnectTimeout(v)
+					if !ok {
+						run.Violation(key+"/grammar", "Connect-Timeout-Ms outside the grammar: "+v, detail)
+						continue
+					}
+					T = new(big.Int).Mul(new(big.Int).SetUint64(ms), big.NewInt(1e6))
+				} else {
+					n, unit, ok := refcodec.ParseGRPCTimeout(v)
+					if !ok {
+						run.Violation(key+"/grammar", "Grpc-Timeout outside the grammar: "+v, detail)
+						continue
+					}
+					T = new(big.Int).Mul(new(big.Int).SetUint64(n), new(big.Int).SetUint64(unit))
+				}
+				if T.Cmp(big.NewInt(int64(rem))) > 0 {
+					run.Violation(key+"/longer", fmt.Sprintf("timeout sent (%s) is longer than the %v that remained", v, rem), detail)
+				}
+			}
+		}
+	}
 	// no deadline => no header
 	for _, protocol := range svc.Protocols {
 		for _, kind := range svc.Kinds {
@@ -427,3 +477,11 @@ func c10EndToEnd(run *ev.Run) {
 		}
 	}
 }
+
+// slidingCtx never expires; its deadline is always `ahead` from now.
+type slidingCtx struct {
+	context.Context
+	ahead time.Duration
+}
+
+func (c slidingCtx) Deadline() (time.Time, bool) { return time.Now().Add(c.ahead), true }
